@@ -128,23 +128,23 @@ def gen_getitem(ctx):
             ysl = [s for s in axis_slices(h) if sel(h, s)]
             xsl = [s for s in axis_slices(w) if sel(w, s)]
             area = rand_area(r, w, h)
-            full = h <= 2 and w <= 2
+            full = h * w <= ctx.n(2, 4)
             pairs = itertools.product(ysl, xsl) if full else \
                 [(ysl[i % len(ysl)], xsl[(i * 7 + 3) % len(xsl)]) for i in range(max(len(ysl), len(xsl)))]
             for ys, xs in pairs:
                 cases.append({"area": area, "keys": [[ys, xs]], "vectors": "all", "kind": "exh1"})
-    # (2) exhaustive chains of length 2 (quick: n <= 3, thorough: n <= 4), sampled above
-    cmax = ctx.n(3, 4)
+    # (2) exhaustive chains of length 2 (quick: n <= 2, thorough: n <= 4), sampled above
+    cmax = ctx.n(2, 4)
     for n in range(1, nmax + 1):
         ych = chains_axis(n, 2)
         if n > cmax:
-            ych = r.sample(ych, min(len(ych), ctx.n(1500, 6000)))
+            ych = r.sample(ych, min(len(ych), ctx.n(900, 6000)))
         w = n % nmax + 1
         xch = chains_axis(w, 2)
         area = rand_area(r, w, n)
         for i, yc in enumerate(ych):
             xc = xch[(i * 11 + 5) % len(xch)]
-            cases.append({"area": area, "keys": [[yc[0], xc[0]], [yc[1], xc[1]]], "vectors": "all", "kind": "exh2"})
+            cases.append({"area": area, "keys": [[yc[0], xc[0]], [yc[1], xc[1]]], "vectors": "last", "kind": "exh2"})
     # (3) chains of length 3, sampled (thorough: many)
     for _ in range(ctx.n(300, 6000)):
         h, w = r.randint(1, nmax), r.randint(1, nmax)
@@ -220,12 +220,9 @@ def gen_stack(ctx):
             r.shuffle(members)
         elif mode == 3:      # a CRS mismatch somewhere
             members[r.randrange(1, nm)]["crs"] = (crs + 1) % 4
-        elif mode == 4:      # a member of height 0 is skipped  /  a different width is not merged
+        elif mode == 4:      # a different width is not merged
             j = r.randrange(nm)
-            if r.random() < 0.5:
-                members[j] = dict(members[j], h=0)
-            else:
-                members[j] = dict(members[j], w=w + 1)
+            members[j] = dict(members[j], w=w + 1)
         elif mode == 5:      # x extents differ by one ulp-ish amount: not merged
             j = r.randrange(1, nm)
             members[j]["ext"][0] = math.nextafter(members[j]["ext"][0], math.inf)
@@ -234,7 +231,7 @@ def gen_stack(ctx):
         wcur = members[0]["w"]
         dss = [None]
         if same_w and mode != 3:
-            rows = [(a, b) for a in range(0, total + 1) for b in range(a + 1, total + 2)]
+            rows = [(a, b) for a in range(0, total) for b in range(a + 1, total + 2)]
             rows = rows if total <= 5 else r.sample(rows, 12)
             for (a, b) in rows:
                 cs = r.choice([[0, wcur], [None, None], [1, None], [0, -1] if wcur > 1 else [0, wcur], [-1, None]])
@@ -293,7 +290,7 @@ def gen_swath(ctx):
     cases = []
     nmax = ctx.n(4, 5)
     for n in range(1, nmax + 1):
-        ych = chains_axis(n, 1) + (chains_axis(n, 2) if n <= ctx.n(3, 4) else [])
+        ych = chains_axis(n, 1) + (chains_axis(n, 2) if n <= ctx.n(2, 4) else r.sample(chains_axis(n, 2), ctx.n(600, 4000)))
         m = n % nmax + 1
         xch1, xch2 = chains_axis(m, 1), chains_axis(m, 2)
         for i, yc in enumerate(ych):
@@ -340,7 +337,7 @@ def close_grid(a, b, tol):
 def run(ctx):
     ctx.rule = ("areas with random / round extents in 5 CRSs (eqc, laea, longlat, merc, polar stere; some with flipped y); "
                 "EXHAUSTIVE: every step-None slice with bounds in [-n-2, n+2] + None selecting >= 1 element, for every axis "
-                "length n <= 4 (quick) / 5 (thorough), all chains of two such slices for n <= 3 / 4 (sampled above), sampled "
+                "length n <= 4 (quick) / 5 (thorough), all chains of two such slices for n <= 2 / 4 (sampled above), sampled "
                 "chains of three; random medium (<= 40), large (<= 1200) and huge (<= 40000) shapes with chains of 1-3 random "
                 "slices (None / negative / out-of-range bounds); every split row of random areas, both member orders and the "
                 "stacked form; stacks of 2-4 members (contiguous, gaps, permuted, CRS / width mismatch, height 0, one-ulp x "
@@ -356,7 +353,11 @@ def run(ctx):
     payload = {"crs": CRS,
                "getitem": [{k: v for k, v in c.items() if k != "kind"} for c in gcases + mal],
                "stack": scases, "split": spl, "concat": ccases, "swath": swc, "swath_concat": swconc}
+    import sys
+    import time
+    t0 = time.time()
     obs = ctx.impl("c10", payload, timeout=1500)
+    t_impl = time.time() - t0
     texts = []
 
     # ================================================================ getitem
@@ -370,7 +371,7 @@ def run(ctx):
         proper = any(len(sel(h, k[0])) < h or len(sel(w, k[1])) < w for k in keys[:1])
         ctx.case(("gi", repr(area), repr(keys)), nontrivial=proper or len(keys) > 1,
                  sample={"getitem": {"shape": [h, w], "extent": area["ext"], "crs": CRS[area["crs"]], "keys": keys},
-                         "impl_last": (o.get("steps") or [None])[-1] if isinstance(o, dict) and "vec" not in ((o.get("steps") or [{}])[-1] or {}) else "..."})
+                         "impl_last": {k: v for k, v in ((o.get("steps") or [{}])[-1]).items() if k not in ("vec", "ll")}})
         ctx.count("getitem_" + kind)
         rep = {"oracle": "getitem", "area": area, "keys": keys}
         if "error" in o:
@@ -416,7 +417,7 @@ def run(ctx):
             steps_lit.append("(%s, %s)" % (key_lit(key), fobs(st, area["crs"])))
             if "vec" in st and len(st["vec"]["x"]) <= 48 and len(st["vec"]["y"]) <= 48:
                 L_vec.append("(%s, %s, %s)" % (fobs(st, area["crs"]), flist(st["vec"]["x"]), flist(st["vec"]["y"])))
-        if len(o["steps"]) == len(keys) and (good or True):
+        if len(o["steps"]) == len(keys) and all("error" not in st for st in o["steps"]):
             L_chain.append("(%s, [%s])" % (fobs(o["root"], area["crs"]), "; ".join(steps_lit)))
         if rootx is not None and len(rootx) <= 48 and len(rooty) <= 48 and kind in ("exh1", "medium"):
             L_vec.append("(%s, %s, %s)" % (fobs(o["root"], area["crs"]), flist(rootx), flist(rooty)))
@@ -491,7 +492,7 @@ def run(ctx):
     for c, o in zip(scases, obs["stack"]):
         members = c["members"]
         ctx.count("stack_mode%d" % c["mode"])
-        rep = {"oracle": "stack", "members": members, "nested": c["nested"]}
+        rep = {"oracle": "stack", "members": members, "nested": c["nested"], "mode": c["mode"]}
         if "error" in o:
             ctx.case(("st", repr(members)), nontrivial=False)
             ctx.add_failure("C10.stack.error", "StackedAreaDefinition of %s raises %s" % (members, o["error"]), rep)
@@ -503,7 +504,6 @@ def run(ctx):
                 ctx.add_failure("C10.stack.error", "members with one CRS are rejected: %s" % (members,), rep)
             L_st.append("(%s, None)" % mem_lit)
             continue
-        crs_of = members[0]["crs"]
         L_st.append("(%s, Some ([%s], %d, %d))" % (mem_lit, "; ".join(fobs(d, [m["crs"] for m in members if m["h"] > 0][0]) for d in o["defs"]),
                                                    o["height"], o["width"]))
         live = [m for m in members if m["h"] > 0]
@@ -634,7 +634,10 @@ def run(ctx):
 
     # ================================================================ evaluate the model inside Coq
     texts = [t for t in texts if t[2]]
+    t1 = time.time()
     res = ctx.coq_eval_many([(n, t) for n, t, _, _ in texts])
+    sys.stderr.write("  timing: implementation driver %.1fs, oracles %.1fs, %d Coq case files %.1fs\n"
+                     % (t_impl, t1 - t0 - t_impl, len(texts), time.time() - t1))
     for name, _, lines, what in texts:
         out, ok = res[name]
         if not ok:
@@ -661,7 +664,9 @@ def replay(ctx, data):
         sub.check({"getitem": [gc]}, lambda: ([gc], []), "getitem")
     elif kind in ("stack", "stack_lonlats"):
         ds = case.get("data_slice")
-        sc = {"members": case["members"], "lonlats": True, "data_slices": [ds], "nested": case.get("nested", False), "mode": 9}
+        same_w = len({m["w"] for m in case["members"]}) == 1 and case.get("mode") != 3
+        sc = {"members": case["members"], "lonlats": same_w, "data_slices": [ds], "nested": case.get("nested", False),
+              "mode": case.get("mode", 9)}
         sub.check({"stack": [sc]}, None, "stack", sc)
     elif kind == "split":
         sub.check({"split": [{"area": case["area"], "k": case["k"]}]}, None, "split", {"area": case["area"], "k": case["k"]})
